@@ -18,9 +18,9 @@ Executable model of `/repo/source/src/function_parser/`:
 * `driver`     — line protocol for `symdrv` (model name `expr`).
 
 Lemma files: `ExprCLemmas` (the C reader reads back what the emitter writes), `ExprEmitLemmas` (emitter
-against interpreter), `ExprParseLemmas` (termination, well-formed trees), `ExprSurface` /
-`ExprSurfaceLemmas` / `ExprUsualLemmas` (the grammar of the parser and the usual grammar).  Theorems:
-`Props/C03.lean`.
+against interpreter), `ExprDblLemmas` (no integer-typed C term is emitted), `ExprParseLemmas`
+(termination, well-formed trees), `ExprSurface` / `ExprSurfaceLemmas` / `ExprUsualLemmas` (the grammar of
+the parser and the usual grammar).  Theorems: `Props/C03.lean`.
 
 Conventions of the model (see also the doc comments):
 
@@ -30,9 +30,10 @@ Conventions of the model (see also the doc comments):
   not round.  A division by zero is the error `div0` in `denote` and in `evalC` alike (the real code
   produces `inf`/`nan`);
 * libm functions (`sqrt sin … exp`, `pow` with a non-integral exponent, `M_PI`) are oracles in `Env`;
-* what the real code does beyond throwing a `gError` is modelled as an error too:
-  `hang` (the bracket loop of `parseThis` never ends), `crash` (segmentation fault / uncaught C++
-  exception).
+* every way the parser, the interpreter and the emitter stop is a `gError` of the real code and an
+  `Err` here.  (Before the commits ad91e0f / 461b1b3 of /repo the real code could also hang in the
+  bracket loop, die of an uncaught `std::out_of_range` or of a NULL dereference, and emit C `int`
+  sub-expressions; the pre-fix definitions are kept, clearly named `…Old`, in `ExprHistory.lean`.)
 
 Core Lean only.
 -/
@@ -53,15 +54,14 @@ inductive Err
   | exoticNumber
   /-- the generated table contains a name the model has no semantics for -/
   | unknownOperator
-  /-- the fuel of `parseCore` ran out (proved impossible: `parse_ne_fuel`, `C03_total`) -/
+  /-- the fuel of `parseCore` / `stripLoop` ran out (proved impossible: `parse_ne_fuel`, `C03_total`) -/
   | fuel
-  /-- the `while(open)` loop of `parseThis` never terminates -/
-  | hang
-  /-- segmentation fault or uncaught `std::out_of_range` -/
-  | crash
+  /-- `parseThis`: "Unbalanced brackets in expression …": the `while(open)` loop finds no further bracket -/
+  | unbalanced
   /-- a `gError` thrown by `value()` / `toC()` for wrong operand types -/
   | type
-  /-- `FPScalarVariable::value()` with a NULL value pointer (a `gError`) -/
+  /-- `FPScalarVariable` / `FPVectorVariable` / `FPTensorVariable::value()` with a NULL value pointer
+  (a `gError`) -/
   | nullValue
   /-- division by zero: outside the rational fragment -/
   | div0
@@ -71,9 +71,11 @@ inductive Err
   | random
   /-- the C reader does not understand the text -/
   | cSyntax
-  /-- the C text performs an integer division that truncates -/
+  /-- the C text performs an integer division that truncates (C semantics of `int / int`; never produced
+  by emitted text: `C03_emit_no_int_division`) -/
   | intTrunc
-  /-- the C text divides an `int` by the `int` zero (undefined behaviour; SIGFPE / `ud2`) -/
+  /-- the C text divides an `int` by the `int` zero (undefined behaviour; SIGFPE / `ud2`; never produced
+  by emitted text either) -/
   | intDiv0
   /-- internal: an exponent outside the modelled range -/
   | range
@@ -86,8 +88,7 @@ def Err.kind : Err → String
   | .exoticNumber => "exotic-number"
   | .unknownOperator => "unknown-operator"
   | .fuel => "fuel"
-  | .hang => "hang"
-  | .crash => "crash"
+  | .unbalanced => "unbalanced"
   | .type => "type"
   | .nullValue => "null-value"
   | .div0 => "div0"
@@ -206,7 +207,7 @@ def findWP (s name : List Char) : Option Nat := findGo name s.reverse [] 0
 
 /-- One run of `while(open)`, started behind index 0 with `open = 1`: walks the brackets of `cs` (index
 of its head = `i`).  `(some p, _)`: `open` reached 0 at the `)` with index `p`; `(none, o)`: the end was
-reached with `open = o`. -/
+reached with `open = o ≥ 1` — neither `(` nor `)` is left, the real loop throws "Unbalanced brackets". -/
 def scanClose : List Char → Nat → Nat → Option Nat × Nat
   | [], _, o => (none, o)
   | c :: cs, i, o =>
@@ -214,25 +215,29 @@ def scanClose : List Char → Nat → Nat → Option Nat × Nat
     else if c = ')' then (if o ≤ 1 then (some i, 0) else scanClose cs (i+1) (o-1))
     else scanClose cs (i+1) o
 
-/-- The `do … while (foundBrackets)` loop.  The C++ enters it only if `expr[0] == '('`, but repeats it
-without looking at `expr[0]` again.
-* `)` matching index 0 is the last character: strip and repeat;
-* the end is reached with `open = 1`: `--open` gives 0, `position = npos`, no stripping —
-  unless the string is EMPTY, then `npos == size()-1` and `string(expr, 1, …)` throws `out_of_range`
-  (`crash`);
-* the end is reached with `open > 1`: `1+npos` wraps to 0, the scan restarts and `open` grows for ever
-  (`hang`). -/
+/-- The `do … while (foundBrackets)` loop, one pass per unit of fuel:
+* `expr.size() < 2 || expr[0] != '('` (after removing an all-enclosing bracket the rest need not start
+  with a bracket any more): the loop ends;
+* `expr[1] == ')'`: "Empty bracket!";
+* the `while(open)` scan, started behind index 0 with `open = 1`, finds neither `(` nor `)` any more
+  while `open > 0`: "Unbalanced brackets";
+* the `)` matching index 0 is the last character: strip both and repeat; otherwise the loop ends.
+Every pass but the last shortens the text by two characters, so the fuel `length + 1` supplied by
+`stripBrackets` is never exhausted (`stripLoop_ne_fuel`). -/
 def stripLoop : Nat → List Char → Except Err (List Char)
-  | 0, e => .ok e
+  | 0, _ => .error .fuel
   | fuel+1, e =>
     match e with
-    | [] => .error .crash
-    | _ :: tl =>
-      match scanClose tl 1 1 with
-      | (some p, _) => if p + 1 = e.length then stripLoop fuel tl.dropLast else .ok e
-      | (none, o) => if o ≤ 1 then .ok e else .error .hang
+    | c0 :: c1 :: tl =>
+      if c0 ≠ '(' then .ok e
+      else if c1 = ')' then .error .emptyBracket
+      else
+        match scanClose (c1 :: tl) 1 1 with
+        | (some p, _) => if p + 1 = e.length then stripLoop fuel (c1 :: tl).dropLast else .ok e
+        | (none, _) => .error .unbalanced
+    | _ => .ok e
 
-/-- the bracket prologue of `parseThis` -/
+/-- the bracket prologue of `parseThis`: `if(expr[0] == '(') { if(expr[1] == ')') throw …; do … }` -/
 def stripBrackets (e : List Char) : Except Err (List Char) :=
   match e with
   | '(' :: rest =>
@@ -494,15 +499,12 @@ def Env.lookup (env : Env) (n : String) : Except Err (Val Rat) :=
     | .tensor => .ok (.t ⟨m 0, m 1, m 2, m 3, m 4, m 5, m 6, m 7, m 8⟩)
 
 /-- `FP*Variable::value()` with the NULL value pointers of the production code
-(`FunctionArbitrary::addDouble/addPoint/addTensor`): the scalar variable throws a `gError`, the vector
-and the tensor variable dereference NULL. -/
+(`FunctionArbitrary::addDouble/addPoint/addTensor`): the scalar, the vector and the tensor variable all
+throw a `gError` (fp_scalar.h, fp_vector.h, fp_tensor.h). -/
 def Env.lookupNull (env : Env) (n : String) : Except Err (Val Rat) :=
   match env.find n with
   | none => .error .unknownSymbol
-  | some d =>
-    match d.ty with
-    | .scalar => .error .nullValue
-    | _ => .error .crash
+  | some _ => .error .nullValue
 
 /-! ## The interpreter `value()` -/
 
@@ -733,7 +735,8 @@ def chain (op : Char) (sp : Bool) : CE → List CE → CE
   | acc, x :: xs => chain op sp (.bin op sp acc x) xs
 
 def mulC (a b : CE) : CE := .bin '*' false a b
-def zeroC : CE := .par (.lit (['0']))
+/-- the zero components of `diagMat idMat uVecX uVecY uVecZ xyMat`: `(0.0)`, a C `double` -/
+def zeroC : CE := .par (.lit ['0', '.', '0'])
 
 def detC (a : M9 CE) : CE :=
   .par (.bin '+' false
@@ -819,8 +822,8 @@ def emitFn (f : Fn) (ca : Val CE) : Except Err (Val CE) :=
     | .s d => .ok (.t ⟨.par d, zeroC, zeroC, zeroC, .par d, zeroC, zeroC, zeroC, .par d⟩)
     | _ => .error .type
   | .Q => do let r ← qC ca.toList; pure (.s r)
-  | .step => .ok (ca.map fun x => .par (.gt0 (.par x) (.lit ['1']) (.lit ['0'])))
-  | .stpVal => .ok (ca.map fun x => .par (.gt0 (.par x) (.par x) (.lit ['0'])))
+  | .step => .ok (ca.map fun x => .par (.gt0 (.par x) (.lit ['1', '.', '0']) (.lit ['0', '.', '0'])))
+  | .stpVal => .ok (ca.map fun x => .par (.gt0 (.par x) (.par x) (.lit ['0', '.', '0'])))
   | .T => match ca with
     | .t a => .ok (.t ⟨.par a.xx, .par a.yx, .par a.zx, .par a.xy, .par a.yy, .par a.zy,
                        .par a.xz, .par a.yz, .par a.zz⟩)
@@ -863,17 +866,17 @@ def symC (env : Env) (n : String) : Except Err (Val CE) :=
     | .tensor => .ok (.t ⟨m 0, m 1, m 2, m 3, m 4, m 5, m 6, m 7, m 8⟩)
 
 /-- `FNPower::toC`, after both operand texts are known to be scalars: `m_b->value()` is tried with the
-NULL value pointers of production.  `vb` is its outcome. -/
+NULL value pointers of production.  `vb` is its outcome; a `gError` (any variable in the exponent) is
+caught and gives `pow(a, b)`.  `opaque`: the exponent needs a libm oracle, the model abstains. -/
 def powC (a b : CE) (vb : Except Err (Val Rat)) : Except Err CE :=
   match vb with
-  | .error .crash => .error .crash
   | .error .opaque => .error .opaque
   | .error _ => .ok (.par (.pow a b))
   | .ok (.s x) =>
     if x.den = 1 ∧ -2147483648 < x.num ∧ x.num < 2147483648 then
       if x.num.natAbs > maxExp then .error .range
       else if 0 < x.num then .ok (.par (powChainC a x.num.toNat))
-      else if x.num = 0 then .ok (.par (.lit ['1']))
+      else if x.num = 0 then .ok (.par (.lit ['1', '.', '0']))
       else .ok (.par (.bin '/' false (.lit ['1', '.', '0']) (.par (powChainC a (-x.num).toNat))))
     else if x = -2147483648 then .error .range
     else .ok (.par (.pow a b))
@@ -1105,6 +1108,20 @@ def CX.isInt : CX → Bool
   | .ite _ _ a b => a.isInt && b.isInt
   | .call1 _ _ => false
   | .call2 _ _ _ => false
+
+/-- no division whose two operands are both of type `int` occurs anywhere in the expression -/
+def CX.noIntDiv : CX → Bool
+  | .num _ _ => true
+  | .mpi => true
+  | .rand0 => true
+  | .randMax => true
+  | .load _ => true
+  | .neg e => e.noIntDiv
+  | .castd e => e.noIntDiv
+  | .bin op a b => a.noIntDiv && b.noIntDiv && !(decide (op = .div) && a.isInt && b.isInt)
+  | .ite c z a b => c.noIntDiv && z.noIntDiv && a.noIntDiv && b.noIntDiv
+  | .call1 _ a => a.noIntDiv
+  | .call2 _ a b => a.noIntDiv && b.noIntDiv
 
 /-- Value of a C expression.  `int / int` is the truncating division: exact quotients are returned, a
 truncating one is reported as `intTrunc` (the value would differ from the real quotient).  Only the
